@@ -14,8 +14,14 @@ What is mirrored
 * `parse_header`: `section + [name]`, dropping the second-to-last entry until the path is a known section
   (the TRANSLATED decorator table `Tables.Top.sections` + vermouth's `('macros',)`), `_new_itp` on
   `('moleculetype',)`, the header line appended to `current_itp` whenever it is not `None`;
-* the section handlers `_defaults`, `_atomtypes`, `_nonbond_params`, `_type_params` (atoms/parameters split
+* the section handlers `_defaults` (names, numbered names and the inserted `gen-pairs` default are the TRANSLATED
+  `Tables.Top.defaultNames / defaultNumbered / genPairsDefault`), `_atomtypes` (field order and float fields are the
+  TRANSLATED `Tables.Top.atomTypeFields / atomTypeFloats`), `_nonbond_params`, `_type_params` (atoms/parameters split
   by the TRANSLATED `atom_idxs`), `_molecules`, `_molecule`, `_system`, `_skip`;
+* literals kept here because `Proofs/C08Flatten*.lean` unfold them — `inverseCond`, the three executed pragmas of
+  `doPragma`, `;` in `stripComment`, `["moleculetype"]` in `doHeader` — are tied to the translated `inverseCond`,
+  `pragmaActions`, `commentChar`, `headerActions` by theorems in `Properties/C08.lean` (`C08_inverse_table`,
+  `C08_pragma_actions_anchor`, `C08_pragma_dispatch`, `C08_comment_char`, `C08_header_actions_anchor`);
 * `parse_include`: condition test against `topology.defines`, path = `cwdir/path`, new director per file
   (fresh section, `current_meta`, `current_itp`), `cwdir` of the child = directory of the included file;
 * `parse_error`, `parse_define` (a `#define` is executed whatever `current_meta` says);
